@@ -1,0 +1,6 @@
+//go:build !verif
+
+package mqtt
+
+// VerifYield is a no-op unless built with the verif tag.
+func verifYield(string) {}
